@@ -291,6 +291,182 @@ def run_nested(case):
     return [], info
 
 
+# ------------------------------------------------------------------------------------------------
+# sub-domain: what a callback may do and see.  pre_randomize switches rand_mode of a field off (the value it then assigns is
+# what the solver sees); list elements hold a back reference to their container; post_randomize reads a random-size list
+# (len, elements, sum, membership) and may append a new element; free-standing calls name a non-random sub-object together
+# with its parent, in either order.
+LIFE_SRC = """
+@vsc.randobj
+class Cfg(object):
+    def __init__(self):
+        self.x = vsc.rand_bit_t(4)
+    @vsc.constraint
+    def c(self):
+        self.x > 0
+    def pre_randomize(self):
+        _pvs_log.append(("pre", "cfg", None))
+    def post_randomize(self):
+        _pvs_log.append(("post", "cfg", (int(self.x),)))
+
+@vsc.randobj
+class Elem(object):
+    def __init__(self, owner, tag):
+        self.owner = owner            # (None, or a back reference to the container)
+        self.tag = tag
+        self.v = vsc.rand_bit_t(3)
+    @vsc.constraint
+    def c(self):
+        self.v > 0
+    def pre_randomize(self):
+        _pvs_log.append(("pre", "e%d" % self.tag, None))
+    def post_randomize(self):
+        _pvs_log.append(("post", "e%d" % self.tag, (int(self.v),)))
+
+@vsc.randobj
+class Top(object):
+    def __init__(self, backref):
+        self.a = vsc.rand_bit_t(4)
+        self.b = vsc.rand_bit_t(4)
+        self.cfg = vsc.attr(Cfg())
+        self.items = vsc.rand_list_t(Elem(None, -1))
+        for i in range(2):
+            self.items.append(Elem(self if backref else None, i))
+        self.sl = vsc.randsz_list_t(vsc.bit_t(3))
+        self.z = vsc.rand_bit_t(4)
+        self.freeze_a = None
+        self.append_tag = None
+    @vsc.constraint
+    def c(self):
+        self.b == self.a
+        self.sl.size.inside(vsc.rangelist(vsc.rng(1, 4)))
+    def pre_randomize(self):
+        _pvs_log.append(("pre", "top", None))
+        if self.freeze_a is not None:
+            with vsc.raw_mode():
+                self.a.rand_mode = False
+            self.a = self.freeze_a
+            self.freeze_a = None
+    def post_randomize(self):
+        sl = [int(x) for x in self.sl]
+        _pvs_log.append(("post", "top", (int(self.a), int(self.b), int(self.z), len(self.sl), tuple(sl), int(self.sl.sum), 7 in self.sl)))
+        if self.append_tag is not None:
+            self.items.append(Elem(None, self.append_tag))
+            self.append_tag = None
+"""
+
+
+@hyp.composite
+def life_cases(d):
+    calls = []
+    for _ in range(d.randint(2, 5)):
+        c = {"form": d.choice(["randomize", "with_z", "vsc", "vsc_cfg_top", "vsc_top_cfg"]), "seed": d.seed(), "z": d.randint(1, 15)}
+        if d.chance(25):
+            c["freeze"] = d.randint(0, 15)
+        if d.chance(25):
+            c["append"] = True
+        calls.append(c)
+    return {"life": True, "backref": d.chance(50), "calls": calls}
+
+
+def run_life(case):
+    from ..core.util import import_vsc
+    import enum as _enum
+    vsc = import_vsc()
+    info = {"returned": 0}
+    text = LIFE_SRC + "# top = Top(backref=%s); calls %s" % (case.get("backref"), cjson(case["calls"]))
+
+    def Vl(kind, detail, extra):
+        return {"property": PROPERTY, "kind": kind, "detail": detail, "case": case, "text": text + "\n# " + extra}
+    if not all(isinstance(c_, dict) and c_.get("form") in ("randomize", "with_z", "vsc", "vsc_cfg_top", "vsc_top_cfg") for c_ in case["calls"]):
+        return [], info
+    log = []
+    reset_library()
+    try:
+        ns = {"vsc": vsc, "enum": _enum, "_pvs_log": log}
+        exec(compile(LIFE_SRC, "<pvs-c17-life>", "exec"), ns)
+        top = ns["Top"](bool(case.get("backref")))
+    except Exception as e:
+        reset_library()
+        return [Vl("library_exception", "construction: " + exc_sig(e), repr(e)[:300])], info
+    frozen = None
+    ntag = 2
+    for ci, call in enumerate(case["calls"]):
+        form = call["form"]
+        where = "call %d %s" % (ci, cjson(call))
+        elems = ["e%d" % e.tag for e in top.items]
+        expected = sorted(["top"] + elems + (["cfg"] if form in ("vsc_cfg_top", "vsc_top_cfg") else []))
+        if isinstance(call.get("freeze"), int) and frozen is None:
+            top.freeze_a = call["freeze"]
+            frozen = call["freeze"]
+        if call.get("append"):
+            top.append_tag = ntag
+            ntag += 1
+        cfg_before = int(top.cfg.x)
+        del log[:]
+        try:
+            rs = flat.mk_randstate(call["seed"])
+            if form == "randomize":
+                top.set_randstate(rs)
+                top.randomize()
+            elif form == "with_z":
+                top.set_randstate(rs)
+                with top.randomize_with() as it:
+                    it.z == call["z"]
+            elif form == "vsc":
+                vsc.randomize(top, randstate=rs)
+            elif form == "vsc_cfg_top":
+                vsc.randomize(top.cfg, top, randstate=rs)
+            else:
+                vsc.randomize(top, top.cfg, randstate=rs)
+            st = "ret"
+        except vsc.SolveFailure as e:
+            flat.defuse(e)
+            flat.scrub(top)
+            st = "sf"
+        except Exception as e:
+            ei = flat.defuse(e)
+            flat.scrub(top)
+            reset_library()
+            return [Vl("library_exception", "callbacks: " + ei.sig, where + " raised %r" % (ei,))], info
+        if st == "sf":
+            return [Vl("spurious_solve_failure", "callbacks", where + ": the system is satisfiable (b == a, z == %d is in z's type)" % call["z"])], info
+        info["returned"] += 1
+        pre = sorted(n_ for ph, n_, _ in log if ph == "pre")
+        post = sorted(n_ for ph, n_, _ in log if ph == "post")
+        if pre != expected:
+            return [Vl("pre_randomize_set", "pre_randomize did not run exactly once on exactly the objects random in the call", where + ": pre ran on %s, expected %s" % (pre, expected))], info
+        if post != expected:
+            return [Vl("post_randomize_set", "post_randomize did not run exactly once on exactly the objects that got pre_randomize", where + ": post ran on %s, expected %s" % (post, expected))], info
+        a, b, z = int(top.a), int(top.b), int(top.z)
+        sl = [int(x) for x in top.sl]
+        if frozen is not None and a != frozen:
+            return [Vl("pre_values_not_seen", "a field whose rand_mode pre_randomize switched off was randomized in that call", where + ": a=%d, pre_randomize froze it at %d" % (a, frozen))], info
+        if b != a or not 1 <= len(sl) <= 4 or (form == "with_z" and z != call["z"]):
+            return [Vl("pre_values_not_seen", "result violates the constraints", where + ": a=%d b=%d z=%d sl=%s" % (a, b, z, sl))], info
+        if any(int(e.v) == 0 for e in top.items if "e%d" % e.tag in elems):
+            return [Vl("pre_values_not_seen", "the own block of a list element (v > 0) is not enforced", where + ": %s" % [(e.tag, int(e.v)) for e in top.items])], info
+        if form in ("vsc_cfg_top", "vsc_top_cfg"):
+            if int(top.cfg.x) == 0:
+                return [Vl("pre_values_not_seen", "a sub-object passed to the call explicitly was not randomized under its own block", where + ": cfg.x=0")], info
+        elif int(top.cfg.x) != cfg_before:
+            return [Vl("pre_values_not_seen", "a non-random sub-object changed", where + ": cfg.x %d -> %d" % (cfg_before, int(top.cfg.x)))], info
+        for ph, n_, vals in log:
+            if ph != "post":
+                continue
+            if n_ == "top":
+                final = (a, b, z, len(sl), tuple(sl), sum(sl), 7 in sl)
+            elif n_ == "cfg":
+                final = (int(top.cfg.x),)
+            else:
+                final = (int([e for e in top.items if e.tag == int(n_[1:])][0].v),)
+            if tuple(vals) != final:
+                return [Vl("post_before_final_values", "post_randomize saw values that differ from the final ones", where + ": %s saw %s, after the call %s" % (n_, vals, final))], info
+    return [], info
+
+
+
+
 def text_of(case):
     src = render.program_source(case["prog"]) + "# top object: %s()" % case["prog"]["top"]
     types, _, _ = tree.flatten(case["prog"])
@@ -309,6 +485,8 @@ def V(kind, detail, case, extra=None):
 
 
 def run_case(case):
+    if case.get("life"):
+        return run_life(case)
     if case.get("cyclic"):
         return run_cyclic(case)
     if case.get("nested_call"):
@@ -413,6 +591,12 @@ def body(case, acc):
         acc.label("pre_randomize makes a nested randomize call")
         acc.label("outer calls that returned after a nested call", info.get("nested_calls", 0))
         return vios
+    if case.get("life"):
+        acc.case(case, info.get("returned", 0) >= 2, sample=LIFE_SRC)
+        acc.label("callback lifecycle (rand_mode in pre_randomize, back references, lists read/extended in post_randomize)")
+        for c in case["calls"]:
+            acc.label("life call:" + c["form"] + (" +freeze" if "freeze" in c else "") + (" +append" if c.get("append") else ""))
+        return vios
     if case.get("cyclic"):
         acc.case(case, info.get("returned", 0) > 0 and len(case["ks"]) >= 2, sample=CYCLIC_SRC)
         acc.label("cyclic object graph")
@@ -437,11 +621,12 @@ def body(case, acc):
 def shards(tier):
     return [{"i": i, "n": 120 if tier == "quick" else 4000} for i in range(14)] + \
         [{"kind": "cyclic", "i": 0, "n": 60 if tier == "quick" else 1500},
-         {"kind": "nested", "i": 0, "n": 60 if tier == "quick" else 1500}]
+         {"kind": "nested", "i": 0, "n": 60 if tier == "quick" else 1500},
+         {"kind": "life", "i": 0, "n": 80 if tier == "quick" else 2000}]
 
 
 def run_shard(spec, seed, tier, acc):
-    strat = {"cyclic": cyclic_cases, "nested": nested_cases}.get(spec.get("kind"), cases)()
+    strat = {"cyclic": cyclic_cases, "nested": nested_cases, "life": life_cases}.get(spec.get("kind"), cases)()
     hyp.drive(strat, body, seed, spec["n"], acc)
 
 
